@@ -654,3 +654,61 @@ def canary_client(u: U):
     f = u.load(RR, "ClientRequest._create_writer", globals={"StreamWriter": _Writer})
     o = u.call(f, req, "PROTO")
     u.check("C02.canary", o.ok and o.value.chunking, "false")
+
+
+@unit("C02", "server.stream_write", functions=[f"{WRSP}:StreamResponse.write", f"{WRSP}:StreamResponse.write_eof"],
+      also=("C04",))
+def server_stream_write(u: U):
+    """StreamResponse.write / write_eof after prepare(): what the handler writes reaches the payload writer unchanged -
+    except for a response that ends with its header block while the connection goes on speaking HTTP (the answer to a
+    HEAD request - a GET handler serves HEAD too -, status 204, status 304): nothing of it may reach the wire, where it
+    would be read as the beginning of the next response.  (101 and a successful CONNECT are left alone: what follows
+    them is the new protocol's data.)"""
+    from pyvc import blen
+
+    method = ("GET", "HEAD", "POST", "CONNECT")[u.choose(4, "method")]
+    status = (200, 204, 304, 101, 404)[u.choose(5, "status")]
+    from aiohttp.helpers import must_be_empty_body
+
+    log = []
+
+    class _PW:
+        output_size = 0
+
+        def write(self, data):
+            log.append(("write", data))
+            return SAwait(name="writer.write")
+
+        def write_eof(self, data=b""):
+            log.append(("write_eof", data))
+            return SAwait(name="writer.write_eof")
+
+    class _Req:
+        pass
+
+    req = _Req()
+    req.method = method
+    r = u.obj("StreamResponse", {"_eof_sent": False, "_payload_writer": _PW(), "_req": req, "_status": status,
+                                 "_must_be_empty_body": must_be_empty_body(method, status), "_body_length": 0},
+              {}, shared=False, real=(WRSP, "StreamResponse"))
+    which = ("write", "write_eof")[u.choose(2, "which")]
+    data = u.bytes("data")
+    u.assume(blen(data) > 0)
+    f = u.load(WRSP, f"StreamResponse.{which}")
+    out = u.call(f, r, data)
+    u.check("C02.stream.write.total", out.ok, repr(out))
+    if not out.ok:
+        return
+    ends_with_headers = method == "HEAD" or status in (204, 304)
+    sent = [e[1] for e in log if blen(e[1]) > 0] if log else []
+    if ends_with_headers:
+        u.check("C02.frame.stream.bodiless_sends_no_body", all(blen(e[1]) == 0 for e in log),
+                f"{method} / {status}: nothing the handler writes reaches the wire",
+                known=[("F4f", True)], witness={"method": method, "status": status, "call": which},
+                also_as=("C04.frame.stream.bodiless_sends_no_body",))
+    else:
+        u.check("C02.stream.write.data_passed_unchanged", len(log) == 1 and log[0][0] == which and log[0][1] is data,
+                "the data goes to the payload writer as it is, once")
+    if which == "write_eof":
+        u.check("C02.stream.write_eof.ends_once", [e[0] for e in log] == ["write_eof"] and fields(r)["_eof_sent"] is True,
+                "the message is ended exactly once")
